@@ -149,4 +149,11 @@ def fromGameOrNone (T : Tables) (ht : HandType) (hole board : List Card) : Excep
   | .error .valueError => .ok none
   | .error .keyError => .error .keyError
 
+/-- the strength function the engine is run with: `hand_type.from_game(hole, board)` reduced to the
+    integer `Hand.__lt__` compares by (the environment's `eval`) -/
+def tableEval (T : Tables) (ht : HandType) (hole board : List Card) : Except EvalErr Int :=
+  match fromGame T ht hole board with
+  | .ok h => .ok (score ht h)
+  | .error e => .error e
+
 end PK
